@@ -48,7 +48,8 @@ def obligations(ctx):
                 'mod-call': [['ExplicitFunction:Mod'], ['LeftParen'], N, ['Comma'], N, ['RightParen']], 'mod-op': [['LeftParen'], ['LeftParen'], N, ['RightParen'], ['Modulo'], ['LeftParen'], N, ['RightParen'], ['RightParen']],
                 'pow-call': [['ExplicitFunction:Pow'], ['LeftParen'], N, ['Comma'], N, ['RightParen']], 'pow-op': [['LeftParen'], ['LeftParen'], N, ['RightParen'], ['Caret'], ['LeftParen'], N, ['RightParen'], ['RightParen']],
                 'superscript': [N, OP, N, ['Superscript'], OP + ['DegToRad', 'RadToDeg', 'RightParen', 'Comma'], N], 'caret-literal': [N, OP, N, ['Caret'], N, OP + ['DegToRad', 'RadToDeg'], N],
-                'prefix-plus': [['Add'], N, OP, ['Add'], N], 'redundant-brackets': [['LeftParen'], ['LeftParen'], N, OP, N, ['RightParen'], ['RightParen'], OP, ['LeftParen'], N, ['RightParen']],
+                'prefix-plus': [['Add'], N, OP, ['Add'], N], 'prefix-plus-right-operand': [N, OP, ['Add'], N, OP + ['ExclamationMark'], N], 'prefix-plus-then-superscript': [N, OP, ['Add'], N, ['Superscript'], OP, N],
+                'prefix-plus-under-minus': [['Subtract'], ['Add'], N, OP, N], 'prefix-plus-under-minus-superscript': [['Subtract'], ['Add'], N, ['Superscript', 'ExclamationMark']], 'redundant-brackets': [['LeftParen'], ['LeftParen'], N, OP, N, ['RightParen'], ['RightParen'], OP, ['LeftParen'], N, ['RightParen']],
             }
             for name, pos in spell.items():
                 obs.append(ParserOb('C13', ev, None, oc=oc, positions=pos, label='%s/spelling/%s/%s' % (ev, name, tag)))
